@@ -43,7 +43,7 @@ DIMS = {
     # (late-*): the last source is added to the already built and already evaluated model, without building again -
     # the sources then stand in the order they were added in, not in the order build() sorts them into
     'hist': ['mcf', 'cmf', 'fcm', 'mfc', 'cfm', 'fmc', 'upd-cfm', 'upd-fcm', 'upd-cmf', 'upd-mfc', 'late-mcf',
-             'late-cfm'],
+             'late-cfm', 'err-cfm', 'err-mcf'],
     'species': [['H2O', 'CH4', 'CO2'], ['H2O'], ['CH4'], ['CO2'], ['H2O', 'CO2'], ['CH4', 'CO2'], ['H2O', 'CH4']],
     'abund': [[1e-4, 3e-5, 1e-5], [0.0, 3e-5, 1e-5], [1e-4, 0.0, 1e-5], [1e-4, 3e-5, 0.0], [1e-6, 1e-6, 1e-6],
               [1e-3, 1e-3, 1e-3], [0.0, 0.0, 0.0]],
@@ -143,6 +143,8 @@ def cmp_licensed(r, got, want_T, tau_ref, sub, sig, **kw):
 def case_fn(case):
     from taurex.util.scattering import rayleigh_sigma_from_name
     r = core.R(case)
+    if case['hist'].startswith('err-'):
+        case = dict(case, shape='const')        # the error round needs the plain 'H2O' parameter of a constant profile
     order = case['order']
     fx.reset_caches()
     tabs, cias = install(case)
@@ -164,6 +166,21 @@ def case_fn(case):
     hist = case['hist']
     if hist.startswith('late-'):
         hist = hist[5:]
+    if hist.startswith('err-'):
+        # a first round with a mixing ratio above one: every entry point refuses the model; then the value every
+        # reference below assumes is written back and nothing of the refusals may survive in what follows
+        hist = hist[4:]
+        back = m['H2O'] if 'H2O' in m.fittingParameters else None
+        if back is not None:
+            m['H2O'] = 1.5
+            for call_ in (m.model_contrib, m.model_full_contrib, m.model):
+                try:
+                    call_()
+                    r.check(False, 'no-exception', 'error-round/accepted-above-unity/%s' % call_.__name__)
+                except Exception:
+                    pass
+            m['H2O'] = back
+            same_list('error-round')
     if hist.startswith('upd-'):
         # a first evaluation with a different fill ratio and planet mass, then the update to the settings every
         # reference below assumes; nothing of the first evaluation may survive in what follows
